@@ -2,13 +2,15 @@
    Models: coq/Model/C22_Schema.v (`validates`, `HasType` over the C20 `value` type; Scrypto
    extension, `()` validation context, generated well-known table Gen/C22_wellknown.v),
    coq/Model/C22_Typed.v (the streaming typed traverser + validator; tied by correspondence only).
-   What is NOT proved here: that the streaming implementation model accepts exactly the payloads
-   whose decoded value `validates` (compared case by case in Corr/C22_run.v, not proved: it needs
-   the traverser/decoder agreement that C21 also leaves to correspondence), and anything about the
-   derive-generated codecs of individual Rust types (checked by the harness type-level oracle). *)
+   coq/Model/C22_Typed.v (the streaming typed traverser + validator; tied by correspondence AND,
+   since C21_Sim/C21_Agree exist, proved equivalent to decode-then-validate for limits >= 1).
+   What is NOT proved here: anything about the derive-generated Describe/Encode/Decode impls of
+   individual Rust types (that the bytes `scrypto_encode(x)` are the encoding of a value tree that
+   HasType in the type's generated schema): checked per type by the harness type-level oracle. *)
 From Coq Require Import List NArith ZArith Bool.
 Import ListNotations.
-Require Import RV.Model.C20_Sbor RV.Model.C22_Types RV.Gen.C22_wellknown RV.Model.C22_Schema RV.Proof.C22_Schema.
+Require Import RV.Model.C20_Sbor RV.Model.C22_Types RV.Gen.C22_wellknown RV.Model.C22_Schema RV.Model.C22_Typed
+               RV.Proof.C22_Schema RV.Proof.C22_Stream.
 Open Scope N_scope.
 
 (* the executable validation function decides the declarative typing relation, for every schema
@@ -22,6 +24,30 @@ Proof. exact any_accepts_all. Qed.
 Theorem C22_any_accepts_decodable : forall s md p,
   validates_payload s any_tid md p = true <-> exists v, decode_payload Scrypto md p = Ok v.
 Proof. exact any_accepts_decodable. Qed.
+
+(* the streaming implementation model (typed traverser over the untyped traverser + validator, as
+   run_validation drives it) accepts a payload exactly when the payload decodes and the decoded
+   value validates; every byte list, schema (cyclic / ill-formed included), type id, limit >= 1
+   (limit 0: C21 finding traverser_ignores_depth_limit_for_root) *)
+Theorem C22_streaming_iff_validates : forall s t md payload, 1 <= md ->
+  (validate_payload s t md payload = POk <-> validates_payload s t md payload = true).
+Proof. exact streaming_iff_validates. Qed.
+(* ... i.e. "the payload validates against the schema" <=> "it decodes to a value of the type" *)
+Theorem C22_streaming_iff_hastype : forall s t md payload, 1 <= md ->
+  (validate_payload s t md payload = POk <->
+   exists v, decode_payload Scrypto md payload = Ok v /\ HasType s t v).
+Proof. exact streaming_iff_hastype. Qed.
+Theorem C22_streaming_total : forall s t md payload, 1 <= md ->
+  validate_payload s t md payload <> POutOfFuel.
+Proof. exact streaming_total. Qed.
+
+(* first half of the property at the level of value trees: the encoding of a value decodes back to
+   it and validates at type t exactly when the value has type t.  (What remains per Rust type: that
+   scrypto_encode(x) is the encoding of a value tree that HasType in T's generated schema.) *)
+Theorem C22_encode_validates : forall s t md v bs, 1 <= md ->
+  wf_value Scrypto v = true -> valid_value v = true -> encode_payload Scrypto md v = Ok bs ->
+  decode_payload Scrypto md bs = Ok v /\ (validate_payload s t md bs = POk <-> HasType s t v).
+Proof. exact encode_validates. Qed.
 
 (* a dangling type id accepts nothing (TypeIdNotFound) *)
 Theorem C22_unresolved_rejects_all : forall s t v, resolve_kind s t = None -> validates s t v = false.
@@ -52,6 +78,10 @@ Qed.
 Print Assumptions C22_validate_spec.
 Print Assumptions C22_any_accepts_all.
 Print Assumptions C22_any_accepts_decodable.
+Print Assumptions C22_streaming_iff_validates.
+Print Assumptions C22_streaming_iff_hastype.
+Print Assumptions C22_streaming_total.
+Print Assumptions C22_encode_validates.
 Print Assumptions C22_unresolved_rejects_all.
 Print Assumptions C22_wellknown_tied.
 Print Assumptions C22_nonvacuous.
